@@ -54,10 +54,15 @@ def damaged_reads(task: dict) -> dict:
             elif damage == "garbage":
                 rng = random.Random(task["seed"])
                 victim.write_bytes(bytes(rng.randrange(256) for _ in range(len(clean[victim]))))
+            elif damage == "zeroed":
+                victim.write_bytes(bytes(len(clean[victim])))
             elif damage == "truncated":
                 victim.write_bytes(clean[victim][:max(1, len(clean[victim]) // 2)])
             # is this a fault at all?  ask the third-party decoder directly
-            rejected = (damage == "deleted") or dsreal.decode_shard(victim, fmt, comp) is None
+            # (for the NUL-filled shard the question is put to the codec / decoder the readers rely on: the Python
+            # FlatBuffers accessors take a buffer of NULs for a shard without examples, which is then no fault)
+            rejected = (damage == "deleted") or (dsreal.decoder_rejects(victim, fmt, comp) if damage == "zeroed"
+                                                 else dsreal.decode_shard(victim, fmt, comp) is None)
             if not rejected:
                 out["skipped"].append(f"{fmt}/{comp} {damage}: the decoder accepts these bytes (not a fault)")
             else:
@@ -186,7 +191,7 @@ def run(ctx: Ctx) -> None:
         for position in ("first", "middle", "last") + (() if q else ("only",)):
             tasks.append({"fmt": fmt, "compression": comp, "position": position,
                           "nshards": 1 if position == "only" else 4,
-                          "damages": ["deleted", "emptied", "garbage"] + ([] if q else ["truncated"]),
+                          "damages": ["deleted", "emptied", "garbage", "zeroed"] + ([] if q else ["truncated"]),
                           "configs": configs, "seed": ctx.seed, "watchdog": 60})
     for k, t in enumerate(tasks):
         t["progress"] = str(ctx.tmp / f"progress_{k}.jsonl")
